@@ -115,10 +115,10 @@ def validate_traces(ctx, limit, cap0, maxkey, traces, what):
     mism = {}
     rejected = set()
     import re
+    for p in r.prints:
+        if "mismatch_tid" in p:
+            mism[int(p["mismatch_tid"])] = (int(p["step"]), ", ".join(sorted(p["bad"])))
     for line in r.raw.splitlines():
-        m = re.match(r'<<"MISMATCH", (\d+), (\d+), \{(.*)\}>>', line.strip())
-        if m:
-            mism[int(m.group(1))] = (int(m.group(2)), m.group(3))
         m = re.match(r'<<"REJECTED", \{(.*)\}>>', line.strip())
         if m:
             rejected = set(int(x) for x in m.group(1).split(",") if x.strip())
